@@ -1,8 +1,9 @@
 import Driver.L0Packet
+import Driver.L0Update
 /-! Line-protocol loop of the L0 differential driver. -/
 namespace Driver
 
-def handlers : List (String × Handler) := packetHandlers
+def handlers : List (String × Handler) := packetHandlers ++ updateHandlers
 
 /-- `fn a1 a2 … => result` -/
 def processLine (line : String) : String :=
